@@ -437,12 +437,12 @@ def c048(ctx):
     ctx.floor('C04.8', 'parse sites in the cache modules', n, 20)
 
 
-def c049(ctx):
+def c049(ctx, rid='C04.9'):
     """a cache that does not validate is rebuilt or ignored — never trimmed in place until it
     validates again: resizing (File::set_len) is only done on a fresh file the same function
     created."""
     P = ctx.prog
-    ctx.rule('C04.9', 'no in-place repair: every File::set_len in the store code is applied to a handle the same function obtained from File::create (a fresh file that is being built, usually a tmp renamed into place). Trimming an existing sidecar / index to a "valid" length makes a torn file pass its length checks while its content no longer lines up with truth.')
+    ctx.rule(rid, 'no in-place repair: every File::set_len in the store code is applied to a handle the same function obtained from File::create (a fresh file that is being built, usually a tmp renamed into place). Trimming an existing sidecar / index to a "valid" length makes a torn file pass its length checks while its content no longer lines up with truth.')
     n = 0
     for p, f in sorted(P.fns.items()):
         if f.crate not in ('ripd', 'rip_log'):
@@ -453,7 +453,7 @@ def c049(ctx):
             fresh = any(x[0] == 'call' and re.search(r'fs::File::create(_new)?$', x[1]) for x in src)
             other = sorted({x[1].rsplit('::', 2)[-2] + '::' + x[1].rsplit('::', 1)[-1] for x in src if x[0] == 'call' and not re.search(r'fs::File::create(_new)?$', x[1])})
             ok = fresh and not other
-            ctx.ob('C04.9', f, 'resize-only-fresh-file', ok,
+            ctx.ob(rid, f, 'resize-only-fresh-file', ok,
                    'set_len is applied to %s' % ('a file this function just created' if ok else
                                                  'an EXISTING file (%s): a torn cache is trimmed until it passes validation instead of being rebuilt from truth' % (', '.join(other) or 'handle not created here')), line=s.line)
-    ctx.floor('C04.9', 'File::set_len sites in the store code', n, 3)
+    ctx.floor(rid, 'File::set_len sites in the store code', n, 3)
